@@ -224,7 +224,7 @@ Section Typed.
     - (* pk_h *) unfold facts, dtracked. cbn [ext_safe ext_of_gen nostk fst snd].
       unfold ext_pk_h. destruct (key_sig_bytes as_written (xc_schnorr c) (xc_unc c k)). cbn. repeat split; auto; discriminate.
     - (* raw_pk_h *) unfold facts, dtracked. cbn [ext_safe ext_of_gen nostk fst snd].
-      unfold ext_pk_h. destruct (key_sig_bytes as_written (xc_schnorr c) false). cbn. repeat split; auto; discriminate.
+      unfold ext_pk_h_none, ext_pk_h. destruct (key_sig_bytes (fx_pkk as_written) (xc_schnorr c) true). cbn. repeat split; auto; discriminate.
     - (* after *) inversion Ht; subst. unfold facts, dtracked. cbn. repeat split; auto; discriminate.
     - (* older *) inversion Ht; subst. unfold facts, dtracked. cbn. repeat split; auto; discriminate.
     - unfold facts, dtracked. cbn. repeat split; auto; discriminate.
